@@ -442,6 +442,86 @@ fn socket_double_bind(kind: SocketType) {
     }
 }
 
+// ---------------------------------------------------------------------------------------------
+// DHCP server (its lock is loom's under the elvis crate's feature verif_loom)
+
+struct Catch(Arc<Mutex<Vec<Vec<u8>>>>);
+impl Session for Catch {
+    fn send(&self, m: Message, _machine: Arc<Machine>) -> Result<(), SendError> {
+        self.0.lock().unwrap().push(m.to_vec());
+        Ok(())
+    }
+}
+
+/// `n` clients' Discover messages are handled by the server at the same time, then one
+/// client releases and discovers again. Offers come from the pool and no address is on
+/// offer to two clients at once.
+fn dhcp_discover(n: usize) {
+    use elvis::{applications::DhcpServer, ip_generator::IpRange};
+    use elvis_core::protocols::dhcp::dhcp_parsing::{DhcpMessage, MessageType};
+    let server = Arc::new(DhcpServer::new(
+        Ipv4Address::new([10, 0, 0, 1]),
+        IpRange::new(Ipv4Address::new([10, 0, 0, 10]), Ipv4Address::new([10, 0, 0, 13])),
+    ));
+    let m = Machine::new().arc();
+    let discover = || {
+        let mut d = DhcpMessage::default();
+        d.op = 1;
+        d.msg_type = MessageType::Discover;
+        DhcpMessage::to_message(d).unwrap()
+    };
+    let hs: Vec<_> = (0..n)
+        .map(|_| {
+            let (server, m, msg) = (server.clone(), m.clone(), discover());
+            loom::thread::spawn(move || {
+                let got = Arc::new(Mutex::new(vec![]));
+                let caller: Arc<dyn Session> = Arc::new(Catch(got.clone()));
+                let r = server.demux(msg, caller, Control::new(), m);
+                let replies = got.lock().unwrap().clone();
+                (r.is_ok(), replies)
+            })
+        })
+        .collect();
+    let mut offers: Vec<[u8; 4]> = vec![];
+    for h in hs {
+        let (ok, replies) = h.join().unwrap();
+        if !ok || replies.len() != 1 {
+            violation(
+                "dhcp-distinct-leases|DhcpServer::demux|discover-not-answered",
+                format!("a Discover with free addresses left got ok={ok} and {} replies", replies.len()),
+            );
+            return;
+        }
+        match DhcpMessage::from_bytes(replies[0].iter().cloned()) {
+            Ok(o) => offers.push(o.your_ip.to_bytes()),
+            Err(e) => {
+                violation(
+                    "dhcp-distinct-leases|DhcpServer::demux|offer-does-not-decode",
+                    format!("{e:?}"),
+                );
+                return;
+            }
+        }
+    }
+    let mut sorted = offers.clone();
+    sorted.sort();
+    outcome(format!("{sorted:?}"));
+    let mut d = sorted.clone();
+    d.dedup();
+    if d.len() != sorted.len() {
+        violation(
+            "dhcp-distinct-leases|DhcpServer::demux|same-address-offered-to-two-clients",
+            format!("{n} Discovers handled at the same time were offered {offers:?}"),
+        );
+    }
+    if let Some(o) = sorted.iter().find(|o| !(o[..3] == [10, 0, 0] && (10..=13).contains(&o[3]))) {
+        violation(
+            "dhcp-distinct-leases|DhcpServer::demux|offer-outside-the-pool",
+            format!("{o:?} is not in 10.0.0.10-13"),
+        );
+    }
+}
+
 fn main() {
     let a: Vec<String> = std::env::args().collect();
     let (scenario, bound) = (a[1].clone(), a[2].parse::<usize>().unwrap());
@@ -468,6 +548,7 @@ fn main() {
                     p[3] == "announce",
                 ),
                 "ephemeral" => ephemeral(p[1].parse().unwrap()),
+                "dhcp" => dhcp_discover(p[1].parse().unwrap()),
                 "udp" => udp_bind_vs_demux(
                     p[1].parse().unwrap(),
                     p[2].parse().unwrap(),
